@@ -27,6 +27,8 @@ type c12Name struct {
 var c12Names = []c12Name{
 	{".html", "html"}, {".html.twig", "html"}, {".js", "js"}, {".js.twig", "js"}, {".css", "css"}, {".css.twig", "css"},
 	{".txt", ""}, {".txt.twig", ""}, {"", "html"}, {".xml", "html"}, {".", "html"}, {".unknown.twig", "html"}, {".twig", "html"},
+	// several dots, directories, upper case in the directory part: the last extension counts
+	{".min.js", "js"}, {".v2.txt", ""}, {".bundle.css.twig", "css"}, {".js.html", "html"}, {".d/x.js", "js"}, {".html/y.txt", ""},
 }
 
 const c12Positions = 31
@@ -428,13 +430,13 @@ func c12Levels(tier string) []core.Level {
 	}
 	names := append(all(len(c12Names)), -1, -2, -3, -4, -5)
 	lv := []core.Level{
-		{Name: "31 print positions x variable x all 13 payloads x all 18 template names x no modifier", Gen: func(emit func(core.Case)) {
+		{Name: "31 print positions x variable x all 13 payloads x all 24 template names x no modifier", Gen: func(emit func(core.Case)) {
 			gen(all(len(c12Payloads)), []int{0}, []int{0}, names, emit)
 		}},
-		{Name: "31 positions x 6 value forms x 13 payloads x 18 names x 12 modifiers (full product)", Gen: func(emit func(core.Case)) {
+		{Name: "31 positions x 6 value forms x 13 payloads x 24 names x 12 modifiers (full product)", Gen: func(emit func(core.Case)) {
 			gen(all(len(c12Payloads)), all(len(c12Forms)), all(c12Mods), names, emit)
 		}},
-		{Name: "values that are not strings: 31 positions x {variable, function result} x 13 payloads carried as the String() of 9 Go types (named int, int64, uint8, bool true/false, float64, float32; struct; pointer) x 18 names x {none, raw, escape, escape('html'), escape(own type)}", Gen: func(emit func(core.Case)) {
+		{Name: "values that are not strings: 31 positions x {variable, function result} x 13 payloads carried as the String() of 9 Go types (named int, int64, uint8, bool true/false, float64, float32; struct; pointer) x 24 names x {none, raw, escape, escape('html'), escape(own type)}", Gen: func(emit func(core.Case)) {
 			for pos := 0; pos < c12Positions; pos++ {
 				for _, f := range []int{0, 2} {
 					for pi := range c12Payloads {
@@ -457,7 +459,7 @@ func init() {
 	core.Register(&core.Check{
 		ID:       "C12",
 		Category: "exploration",
-		Rule: "full product of 31 print positions (top level, if / else / elseif branch, for body, for-else, block, nested block, overriding block of a child, block via parent(), inherited block, included template, embedded template, embed override block, set-capture body, filter section, macro body, imported macro; macro result / capture / parent() / block() printed with |raw; html page including a js partial, js child overriding / inheriting a block of an html base; two blocks of one name in one file: two embeds, a block containing an embed, an override embedding first, embeds at two levels; macros defined in an extending template, imported elsewhere through import / from) x 6 value forms (variable, attribute, function result, concatenation, conditional, interpolation) x 13 payloads (< > \" ' & </script> \\ ; newline, multi-byte, astral, mixed) x 18 template names (html, js, css, txt with and without .twig, no extension, unknown extension, trailing dot, inline sources without a dot, with dots, and ending in '.txt' / '.js' / '.css.twig') x 12 modifiers (none, raw, escape, escape('html'), escape(own type), escape('js'), escape('txt'), a chain of unknown strategies, value marked safe for the same / another type, marked safe for another type and then re-wrapped for the own type, marked safe for a user-defined type only), in a twig.New environment; and the payloads carried as the String() of 9 non-string Go types (named numeric and bool kinds, struct, pointer). " +
+		Rule: "full product of 31 print positions (top level, if / else / elseif branch, for body, for-else, block, nested block, overriding block of a child, block via parent(), inherited block, included template, embedded template, embed override block, set-capture body, filter section, macro body, imported macro; macro result / capture / parent() / block() printed with |raw; html page including a js partial, js child overriding / inheriting a block of an html base; two blocks of one name in one file: two embeds, a block containing an embed, an override embedding first, embeds at two levels; macros defined in an extending template, imported elsewhere through import / from) x 6 value forms (variable, attribute, function result, concatenation, conditional, interpolation) x 13 payloads (< > \" ' & </script> \\ ; newline, multi-byte, astral, mixed) x 24 template names (html, js, css, txt with and without .twig, no extension, unknown extension, trailing dot, inline sources without a dot, with dots, and ending in '.txt' / '.js' / '.css.twig'; names with several dots or a dotted directory) x 12 modifiers (none, raw, escape, escape('html'), escape(own type), escape('js'), escape('txt'), a chain of unknown strategies, value marked safe for the same / another type, marked safe for another type and then re-wrapped for the own type, marked safe for a user-defined type only), in a twig.New environment; and the payloads carried as the String() of 9 non-string Go types (named numeric and bool kinds, struct, pointer). " +
 			"Oracle: expected content type = registered escaper of the extension, none for txt, html otherwise; a directly printed value must decode (decoder of that context) to the payload and lie in the context's inert alphabet: escaped exactly once; raw and same-type safe values verbatim; values reaching the output through a capture / macro result / parent() must be inert. distinct = distinct configuration; non-trivial = an assertion was made",
 		Assumptions: []string{
 			"for an explicit escape of another type (html inside js/css, js inside css, txt or an unknown strategy anywhere) 'exactly once' is ambiguous; only inertness for the template's own type is asserted, which the statement pins under either reading",
